@@ -185,6 +185,56 @@ def gauss(rows, p):
     return piv, True
 
 
+def subset_sum(row, rhs, doms, p, cap):
+    """All assignments of the unknowns of  sum_v row[v]*x_v = rhs (mod p)  with x_v in doms[v] (two
+    values each).  Returns None if the sums could wrap around p (rule not applicable)."""
+    items = []
+    base = 0
+    for v, c in row.items():
+        r0, r1 = doms[v]
+        base += c * r0
+        d = c * (r1 - r0) % p
+        if d > p // 2:
+            d -= p
+        items.append((v, r0, r1, d))
+    pos = sum(d for _, _, _, d in items if d > 0)
+    neg = sum(d for _, _, _, d in items if d < 0)
+    if pos - neg >= p:
+        return None
+    t = (rhs - base) % p
+    # the unique representative of t in [neg, pos], if any
+    t = neg + ((t - neg) % p)
+    if t > pos:
+        return []
+    items.sort(key=lambda it: -abs(it[3]))
+    k = len(items)
+    lo = [0] * (k + 1)
+    hi = [0] * (k + 1)
+    for i in range(k - 1, -1, -1):
+        d = items[i][3]
+        lo[i] = lo[i + 1] + min(d, 0)
+        hi[i] = hi[i + 1] + max(d, 0)
+    out = []
+    cur = {}
+
+    def rec(i, rem):
+        if rem < lo[i] or rem > hi[i]:
+            return
+        if i == k:
+            out.append(dict(cur))
+            if len(out) > cap:
+                raise Capped("subset-sum cap")
+            return
+        v, r0, r1, d = items[i]
+        cur[v] = r0
+        rec(i + 1, rem)
+        cur[v] = r1
+        rec(i + 1, rem - d)
+        del cur[v]
+    rec(0, t)
+    return out
+
+
 def exact(cons, nvars, fixed, p, max_leaves=1 << 14, relevant=None, honest=None):
     """Returns (solutions, undecided, stats).  solutions: list of Solution(asg, free) where asg
     assigns every non-free variable; free variables may take ANY value of F_p.
@@ -211,6 +261,7 @@ def exact(cons, nvars, fixed, p, max_leaves=1 << 14, relevant=None, honest=None)
         best = None
         pending = []
         nlive = []
+        doms = {}
         for idx in live:
             A, B, C = cons[idx]
             a0, au = split(A, asg)
@@ -249,11 +300,84 @@ def exact(cons, nvars, fixed, p, max_leaves=1 << 14, relevant=None, honest=None)
                         return ("conflict",)
                 if len(roots) == 1:
                     return ("assign", u, roots, nlive + [i for i in live if i > idx])
+                if u in doms:
+                    roots = [x for x in doms[u] if x in roots]
+                    if not roots:
+                        return ("conflict",)
+                    if len(roots) == 1:
+                        return ("assign", u, roots, nlive + [i for i in live if i > idx])
+                doms[u] = roots
                 if best is None:
                     best = ("assign", u, roots)
             else:
                 pending.append(idx)
         if best:
+            # weighted-sum rule: a pending LINEAR constraint all of whose unknowns have a two-element
+            # domain and whose sums cannot wrap around p is solved jointly (exact subset-sum search
+            # with interval pruning) instead of branching on its unknowns one by one
+            rows = []
+            for idx in pending:
+                A, B, C = cons[idx]
+                a0, au = split(A, asg)
+                b0, bu = split(B, asg)
+                c0, cu = split(C, asg)
+                if au and bu:
+                    continue
+                row = {}
+                for v, c in bu.items():
+                    row[v] = (row.get(v, 0) + a0 * c) % p
+                for v, c in au.items():
+                    row[v] = (row.get(v, 0) + b0 * c) % p
+                for v, c in cu.items():
+                    row[v] = (row.get(v, 0) - c) % p
+                row = {v: c for v, c in row.items() if c}
+                if row:
+                    rows.append([row, (c0 - a0 * b0) % p])
+            # unknowns without a domain are eliminated between the linear rows first (each such unknown
+            # is defined by one row, which is then dropped: it holds for exactly one value of that unknown)
+            two = lambda v: v in doms and len(doms[v]) == 2
+            while True:
+                piv = None
+                for i, (row, k) in enumerate(rows):
+                    for v in row:
+                        if not two(v):
+                            piv = (i, v)
+                            break
+                    if piv:
+                        break
+                if piv is None:
+                    break
+                i, v = piv
+                row, k = rows.pop(i)
+                inv = pow(row[v], -1, p)
+                for r2 in rows:
+                    c = r2[0].get(v)
+                    if c:
+                        f = c * inv % p
+                        for w, cw in row.items():
+                            nv = (r2[0].get(w, 0) - f * cw) % p
+                            if nv:
+                                r2[0][w] = nv
+                            else:
+                                r2[0].pop(w, None)
+                        r2[1] = (r2[1] - f * k) % p
+            cands = [(row, k) for row, k in rows if len(row) >= 2]
+            for row, k in rows:
+                if not row and k:
+                    return ("conflict",)
+            if cands:
+                for cap in (4, 64, 1024, max_leaves):
+                    capped = False
+                    for row, k in cands:
+                        try:
+                            joint = subset_sum(row, k, doms, p, cap)
+                        except Capped:
+                            capped = True
+                            continue
+                        if joint is not None:
+                            return ("joint", joint, nlive)
+                    if not capped:
+                        break
             return best + (nlive,)
         return ("quiet", pending, nlive)
 
@@ -262,6 +386,18 @@ def exact(cons, nvars, fixed, p, max_leaves=1 << 14, relevant=None, honest=None)
         while True:
             r = step(asg, live)
             if r[0] == "conflict":
+                return
+            if r[0] == "joint":
+                _, joint, live = r
+                if not joint:
+                    return
+                if len(joint) == 1:
+                    asg.update(joint[0])
+                    continue
+                for j in joint:
+                    a2 = dict(asg)
+                    a2.update(j)
+                    rec(a2, live)
                 return
             if r[0] == "assign":
                 _, u, roots, live = r
